@@ -95,14 +95,31 @@ func ServiceNames(s int) string {
 	return fmt.Sprintf("svc%d.verif.test,bob@users%d.verif.test,^rx%d-[a-z]+@regex\\.verif\\.test$,urn:service:sos.s%d,^tel:\\+99%d[0-9]*$,*69@pbx%d.verif.test,+1800555%d@ims.verif.test", s, s, s, s, s, s, s)
 }
 
+// UAName / HopName: the host-table names of the user agents and next hops. Some are written
+// with capital letters - the table is looked up with the name exactly as a Via, Route or
+// static route spells it, and the driver always spells a name as the table does.
+func UAName(i int) string {
+	if i%2 == 0 {
+		return fmt.Sprintf("Ua%d.Verif.test", i)
+	}
+	return fmt.Sprintf("ua%d.verif.test", i)
+}
+
+func HopName(i int) string {
+	if i >= 4 && i%2 == 0 {
+		return fmt.Sprintf("NH%d.verif.test", i)
+	}
+	return fmt.Sprintf("nh%d.verif.test", i)
+}
+
 // BuildConfig renders the standard configuration for plan p.
 func BuildConfig(p Plan, o Opts) *Config {
 	cfg := &Config{}
 	for i := 1; i <= o.UAs; i++ {
-		cfg.Hosts = append(cfg.Hosts, HostIP{fmt.Sprintf("ua%d.verif.test", i), p.UA(i)})
+		cfg.Hosts = append(cfg.Hosts, HostIP{UAName(i), p.UA(i)})
 	}
 	for i := 1; i <= o.Hops; i++ {
-		cfg.Hosts = append(cfg.Hosts, HostIP{fmt.Sprintf("nh%d.verif.test", i), p.NextHop(i)})
+		cfg.Hosts = append(cfg.Hosts, HostIP{HopName(i), p.NextHop(i)})
 	}
 	cfg.Hosts = append(cfg.Hosts, HostIP{"sentinel.verif.test", p.Sentinel()})
 	for s := 0; s < o.Services; s++ {
@@ -170,14 +187,14 @@ func NewWorld(bin, dir string, o Opts) (*World, error) {
 		return nil, err
 	}
 	for i := 1; i <= o.UAs; i++ {
-		u := &UA{Index: i, IP: p.UA(i), Name: fmt.Sprintf("ua%d.verif.test", i), conns: map[string]*TCPConn{}}
+		u := &UA{Index: i, IP: p.UA(i), Name: UAName(i), conns: map[string]*TCPConn{}}
 		if u.UDP, err = w.Net.UDP(fmt.Sprintf("ua%d", i), fmt.Sprintf("%s:%d", u.IP, UDPPort)); err != nil {
 			return nil, err
 		}
 		w.UAs = append(w.UAs, u)
 	}
 	for i := 1; i <= o.Hops; i++ {
-		h := &Hop{IP: p.NextHop(i), Name: fmt.Sprintf("nh%d.verif.test", i), UDP: map[int]*UDPEndpoint{}, TCP: map[int]*TCPListener{}}
+		h := &Hop{IP: p.NextHop(i), Name: HopName(i), UDP: map[int]*UDPEndpoint{}, TCP: map[int]*TCPListener{}}
 		for _, port := range []int{NextHopPortA, NextHopPortB} {
 			if h.UDP[port], err = w.Net.UDP(fmt.Sprintf("nh%d:%d/udp", i, port), fmt.Sprintf("%s:%d", h.IP, port)); err != nil {
 				return nil, err
